@@ -391,6 +391,7 @@ func (h *hist) restart(noWrite bool) error {
 		return fmt.Errorf("step %d: Close failed: %v", h.step, err)
 	}
 	h.db = nil
+	h.reseed()
 	if h.switchFS && (h.env.Kind == "os" || h.env.Kind == "mmap") && core.Pct(h.ch, "switchfs", 60) {
 		h.env.SwitchOS()
 		h.ch.Note("switch file system to %s", h.env.Kind)
@@ -752,6 +753,21 @@ func (h *hist) netZeroSession(maxSteps int) error {
 		}
 	}
 	return h.fullCheck("after the net-zero session phase")
+}
+
+// reseed changes the value a freshly drawn hash seed is replaced with. pogreb draws a new
+// random seed whenever it opens a database whose index is empty (never written, emptied, or
+// about to be rebuilt by recovery) and keeps the stored seed otherwise; the override is only
+// consulted in the first case. Varying it between sessions therefore behaves exactly like real
+// random seeds - a seed that is persisted or reloaded wrongly shows - and stays deterministic.
+// (The engineered hash classes of the universe lose their collisions under the new seed; the
+// keys stay valid keys.)
+func (h *hist) reseed() {
+	if core.Pct(h.ch, "reseed", 30) {
+		seed := uint32(h.ch.Int("newseed", 0, 1<<30))
+		pinSeed(seed)
+		h.st.Count("sessions_with_changed_seed_override", 1)
+	}
 }
 
 func (h *hist) classify() {
